@@ -30,7 +30,7 @@ func randPrintable(r *core.Rng) string {
 }
 
 func checkC06(c *core.Ctx) {
-	c.SetRule("the C05 scenario family (every packet index x stop kinds x pacing x handler speed, cancels, handler/mapper failures, pre-connection failures, read error), one pass per cell, plus ERR packets with arbitrary code (1..65535) and printable/UTF-8 message with and without the #sqlstate marker at random stop points in both pacings; Error() is called immediately after Stream returns in half of the runs and after quiescence in the other half, always before any harness-side cancel; plus attempts under a context with a near deadline in which the master ends the stream before the deadline and Error() is asked after it has passed; distinct by (history, spec); non-trivial iff the scripted stop was reached")
+	c.SetRule("the C05 scenario family (every packet index x stop kinds x pacing x handler speed, cancels, handler/mapper failures, pre-connection failures, read error), one pass per cell, plus ERR packets with arbitrary code (1..65535) and printable/UTF-8 message with and without the #sqlstate marker at random stop points in both pacings; Error() is called immediately after Stream returns in half of the runs and after quiescence in the other half, before any harness-side cancel in two thirds of the runs, right after a caller-side cancel in the others; plus attempts under a context with a near deadline in which the master ends the stream before the deadline and Error() is asked after it has passed; distinct by (history, spec); non-trivial iff the scripted stop was reached")
 	c.Assume("only the implications of the statement are demanded: parser-side failure => Stream != nil; Stream == nil and Error() == nil => cancellation or EOF; Stream == nil after ERR => Error() carries the message")
 	nh := c.N(6, 60)
 	if c.Replay != "" {
@@ -176,7 +176,11 @@ func c06Run(c *core.Ctx, scn stopScn, h *hist.History, l *hist.Layout, tables []
 	}
 	r := c.Rng(core.StrID("c06run"), uint64(scn.Hist), core.Hash64([]byte(fmt.Sprint(scn.Spec))), uint64(scn.Rep))
 	errFirst := (scn.Hist+spec.At+scn.Rep)%2 == 0
-	ob := runStop(c, s, l, start, scn, attemptOpts{ErrorCalls: 1, Leftovers: !errFirst, ErrorFirst: errFirst, InlineError: errFirst}, r)
+	// in a third of the runs the caller cancels its context between Stream's
+	// return and its Error() call (a deferred cancel): what ended the stream
+	// does not change by that
+	lateCancel := (scn.Hist+spec.At+2*scn.Rep)%3 == 1 && !strings.Contains(spec.Kind, "cancel")
+	ob := runStop(c, s, l, start, scn, attemptOpts{ErrorCalls: 1, Leftovers: !errFirst, ErrorFirst: errFirst, InlineError: errFirst && !lateCancel, CancelBeforeError: lateCancel}, r)
 	res := ob.Res
 	c.Case(core.HashAdd(layoutHash(l), []byte(fmt.Sprint(scn.Spec, scn.Rep))), ob.reached())
 	if res.Verdict != run.Returned {
@@ -192,6 +196,9 @@ func c06Run(c *core.Ctx, scn stopScn, h *hist.History, l *hist.Layout, tables []
 		return
 	}
 	c.Cell("cause:" + cls)
+	if lateCancel {
+		c.Cell("caller-cancels-between-return-and-Error()")
+	}
 	if errFirst {
 		c.Cell("error-call:immediately")
 	} else {
@@ -238,6 +245,10 @@ func c06Run(c *core.Ctx, scn stopScn, h *hist.History, l *hist.Layout, tables []
 		switch cls {
 		case "cancel", "eof":
 		default:
+			if lateCancel {
+				c.Violation("c06:clean-end-after-late-cancel:"+cls, fmt.Sprintf("%s: stream ended by %s, Stream returned nil, the caller then cancelled its context and Error() reports a clean end", spec, cls), wit())
+				return
+			}
 			c.Violation("c06:clean-end-for:"+cls, fmt.Sprintf("%s: stream ended by %s yet Stream and Error() both returned nil", spec, cls), wit())
 			return
 		}
